@@ -259,6 +259,9 @@ func (d *Decoder) Write(p []byte) (n int, err error) {
 	}
 
 	for len(d.buf) > 0 {
+		// A dynamic table size update does not end the beginning of the
+		// header block: RFC 7541, sec 4.2 allows several of them there.
+		atStart := d.firstField && d.buf[0]&0xe0 == 0x20
 		err = d.parseHeaderFieldRepr()
 		if err == errNeedMore {
 			// Extra paranoia, making sure saveBuf won't
@@ -274,6 +277,9 @@ func (d *Decoder) Write(p []byte) (n int, err error) {
 			return len(p), nil
 		}
 		d.firstField = false
+		if atStart && err == nil {
+			d.firstField = true
+		}
 		if err != nil {
 			break
 		}
